@@ -35,6 +35,36 @@ SPECIAL = nw.PRIMS
 GENERIC = [k for k in nw.KINDS if k not in nw.PRIMS]
 
 
+KNOWN_FILE = cm.VERIF / "known_findings_C09.json"
+
+
+def load_known():
+    out = {}
+    if KNOWN_FILE.exists():
+        for e in json.loads(KNOWN_FILE.read_text())["entries"]:
+            if e.get("property") == PID and e.get("status") == "finding":
+                out[e["id"]] = e
+    for e in cm.load_known(PID):
+        out[e["id"]] = e
+    glob = cm.VERIF / "known_findings.json"
+    if glob.exists():
+        fixed = {e["id"] for e in json.loads(glob.read_text())["entries"] if e.get("status") == "fixed"}
+        out = {k: v for k, v in out.items() if k not in fixed}
+    return out
+
+
+def known_id(name, res):
+    """F-N1: an accelerated Nesterov run that exhausted max_interations (returned iterations >= cap)"""
+    r = res.get(name)
+    if name in ("nesterov_full+acc", "nesterov_prim_full+acc") and r is not None and "exc" not in r \
+            and r.get("iterations", 0) >= NESTEROV_CAP:
+        return "F-N1"
+    return None
+
+
+NESTEROV_CAP = 128      # replaced at run time by the default read from the source (narrow_caps)
+
+
 def prim_ok(spec):
     return spec["kind"] in nw.PRIMS and "margin" not in spec
 
@@ -96,6 +126,19 @@ def gen_cases(rng, tier):
                 s2 = nw.translate_spec(s2, np.array(meta["dir"]) * s2["margin"])
             meta.update(stream="mixed_margin", L=nw.scene_scale([s1, s2]))
             cases.append(dict(c1=s1, c2=s2, meta=meta))
+    # needle / plate shaped colliders (aspect ratio up to 1e4, still inside D), at a true distance / touching / overlapping
+    for i in range(60 if tier == "quick" else 700):
+        k1, k2 = rng.choice(nw.KINDS), rng.choice(nw.KINDS)
+        s1 = nb.aspect_collider(rng, k1)
+        s2 = nb.aspect_collider(rng, k2) if rng.random() < 0.6 else nw.gen_collider(rng, k2, "moderate", spread=3.0)
+        mode = rng.choice(["asis", "touch", "touch", "overlap"])
+        if mode == "touch":
+            u = nw.rand_unit(rng, rng.choice(["lattice", "random"]))
+            g = rng.choice([1e-6, 1e-3, 0.1, 1.0, 10.0])
+            s2 = nw.translate_spec(s2, nw.support_point(s1, u) + g * u - nw.support_point(s2, -u))
+        elif mode == "overlap":
+            s2 = nw.translate_spec(s2, nw.center_of(s1) - nw.center_of(s2))
+        cases.append(dict(c1=s1, c2=s2, meta=dict(stream="aspect", sub=mode, kinds=[k1, k2])))
     n_general = 60 if tier == "quick" else 1200
     for _ in range(n_general):
         s1, s2, meta = nw.gen_pair(rng, tier)
@@ -148,6 +191,14 @@ def run(tier, seed, replay=None):
     exprs, idx = [], []
     hist = {}
     path_checks = 0
+    known = load_known()
+    known_counts = {}
+    global NESTEROV_CAP
+    try:
+        from .. import narrow_caps
+        NESTEROV_CAP = narrow_caps.read(cm.REPO)["nesterov_max_interations"]
+    except Exception as e:  # noqa
+        R.notes.append(f"caps reader failed ({e}); using max_interations = {NESTEROV_CAP}")
 
     def bump(k):
         hist[k] = hist.get(k, 0) + 1
@@ -175,7 +226,7 @@ def run(tier, seed, replay=None):
                              f"{nw.vq(ro['a'])} {nw.vq(ro['b'])} {nw._q(ro['d'])} {nw._q(tau)}")
                 idx.append((i, "orig", None))
         # ---- Nesterov values against a certified enclosure
-        vals, names = [], []
+        vals, names, deferred = [], [], []
         for key in ("nesterov_full", "nesterov_full+acc", "nesterov_distance", "nesterov_prim_full", "nesterov_prim_full+acc",
                     "nesterov_prim_distance"):
             r = byfn.get(key)
@@ -183,6 +234,10 @@ def run(tier, seed, replay=None):
                 continue
             if not math.isfinite(r["d"]):
                 R.failure(f"{key} returned a non-finite distance {r['d']!r}", dict(c1=s1, c2=s2, meta=c["meta"], result=r), site=key)
+                continue
+            kid = known_id(key, byfn)
+            if kid is not None and kid in known:
+                deferred.append((key, max(r["d"], 0.0), kid))
                 continue
             vals.append(max(r["d"], 0.0))
             names.append(key)
@@ -193,6 +248,14 @@ def run(tier, seed, replay=None):
                     and finite_pt(cand["b"]) and cand["d"] < 1e300:
                 ref = cand
                 break
+        if ref is not None:
+            for key, v, kid in deferred:
+                if not (max(0.0, ref["d"] - ENC_K * L) - TAU_K * L <= v <= ref["d"] + ENC_K * L + TAU_K * L):
+                    known_counts[kid] = known_counts.get(kid, 0) + 1
+                    R.known_finding(kid, known[kid]["what"])
+                    bump(f"{key}:known_finding:{kid}")
+                else:
+                    bump(f"{key}:cap_exhausted_but_within_tolerance")
         if vals and ref is not None:
             dj = ref["d"]
             eps = ENC_K * L
@@ -291,6 +354,7 @@ def run(tier, seed, replay=None):
     R.cov["disagreements_checked"] = rejected
     R.cov["distinct_nontrivial"] = len(distinct)
     R.cov["answer_path_checks"] = path_checks
+    R.cov["known_finding_failures"] = known_counts
     R.cov["histogram"] = dict(sorted(hist.items()))
     for c, rr in list(zip(cases, results))[:3]:
         R.sample(dict(c1=c["c1"], c2=c["c2"], meta=c["meta"],
